@@ -398,7 +398,7 @@ Proof.
   intros Hwf Hb Hx Hy Hx1 Hy1 Hdx Hdy Hcw Hrw. unfold op_copy_within, assert.
   destruct (N.leb_spec x0 x1); [|lia]. destruct (N.leb_spec y0 y1); [|lia].
   destruct (N.leb_spec x1 (N.of_nat (vcols v))); [|lia]. destruct (N.leb_spec y1 (N.of_nat (vrows v))); [|lia].
-  cbn [bind]. unfold uadd.
+  cbn [bind]. unfold cadd.
   destruct (N.ltb_spec (dx + (x1 - x0)) W); [|lia]. cbn [bind].
   destruct (N.leb_spec (dx + (x1 - x0)) (N.of_nat (vcols v))); [|lia]. cbn [bind].
   destruct (N.ltb_spec (dy + (y1 - y0)) W); [|lia]. cbn [bind].
@@ -494,19 +494,18 @@ Proof.
 Qed.
 
 Theorem op_copy_within_reject oc v b (x0 y0 x1 y1 dx dy : N) :
-  (dx + (x1 - x0) < W)%N -> (dy + (y1 - y0) < W)%N ->
   ~ ((x0 <= x1)%N /\ (y0 <= y1)%N /\ (x1 <= N.of_nat (vcols v))%N /\ (y1 <= N.of_nat (vrows v))%N /\
      (dx + (x1 - x0) <= N.of_nat (vcols v))%N /\ (dy + (y1 - y0) <= N.of_nat (vrows v))%N) ->
   op_copy_within oc v b x0 y0 x1 y1 dx dy = Panic.
 Proof.
-  intros Hw1 Hw2 H. unfold op_copy_within, assert.
+  intros H. unfold op_copy_within, assert.
   destruct (N.leb_spec x0 x1); cbn [bind]; [|reflexivity].
   destruct (N.leb_spec y0 y1); cbn [bind]; [|reflexivity].
   destruct (N.leb_spec x1 (N.of_nat (vcols v))); cbn [bind]; [|reflexivity].
   destruct (N.leb_spec y1 (N.of_nat (vrows v))); cbn [bind]; [|reflexivity].
-  unfold uadd. destruct (N.ltb_spec (dx + (x1 - x0)) W); [|lia]. cbn [bind].
+  unfold cadd. destruct (N.ltb_spec (dx + (x1 - x0)) W); cbn [bind]; [|reflexivity].
   destruct (N.leb_spec (dx + (x1 - x0)) (N.of_nat (vcols v))); cbn [bind]; [|reflexivity].
-  destruct (N.ltb_spec (dy + (y1 - y0)) W); [|lia]. cbn [bind].
+  destruct (N.ltb_spec (dy + (y1 - y0)) W); cbn [bind]; [|reflexivity].
   destruct (N.leb_spec (dy + (y1 - y0)) (N.of_nat (vrows v))); cbn [bind]; [|reflexivity].
   exfalso. apply H. repeat split; assumption.
 Qed.
